@@ -9,6 +9,9 @@ def doc_nested(n):
 for n in [6, 12, 24]:
     print(json.dumps({'mode': 'parse', 'shape': 'fn-nesting-failing-argument', 'depth': n, 'q': '$[?' + 'f(' * n + '1==1' + ')' * n + ']'}))
     # the same doubling for a VALID query: a function call in test position is parsed under comp_expr and again under test_expr
+    qq = '1'
+    for _ in range(n): qq = 'f(' + qq + '==1)'
+    print(json.dumps({'mode': 'parse', 'shape': 'fn-nesting-comparison-argument', 'depth': n, 'q': '$[?' + qq + ']'}))
     print(json.dumps({'mode': 'parse', 'shape': 'fn-nesting-through-filters', 'depth': n, 'q': '$[?' + 'f(@[?' * n + '@' + '])' * n + ']'}))
 for n in depths:
     shapes = {
@@ -69,3 +72,13 @@ for n in [1000, 10000] + ([30000] if tier == 'thorough' else []):
     }
     for shape, (q, dup) in deepdocs.items():
         print(json.dumps({'mode': 'run', 'shape': shape, 'depth': n, 'q': q, 'doc': 0, 'wrap': ['[]'] * n, 'dup': dup}))
+
+# comparisons nested inside the arguments of count()/value(), as deep as the document: every operand must be evaluated once per level
+for n in [10, 20, 40]:
+    for op in ('>=', '<=', '==', '<'):
+        q = '@ %s 1' % op
+        for _ in range(n): q = 'count(@[?%s]) %s 1' % (q, op)
+        print(json.dumps({'mode': 'run', 'shape': 'nested-count-comparisons' + op, 'depth': n, 'q': '$[?' + q + ']', 'doc': 1, 'wrap': ['[]'] * (n + 2)}))
+    q = '@ >= 1'
+    for _ in range(n): q = 'value(@[?%s]) >= 1' % q
+    print(json.dumps({'mode': 'run', 'shape': 'nested-value-comparisons', 'depth': n, 'q': '$[?' + q + ']', 'doc': 1, 'wrap': ['[]'] * (n + 2)}))
